@@ -379,7 +379,7 @@ def translate(outdir, opts):
     """returns dict(sites=[...], others=..., mk=..., calls=[names], sources={path: sha})"""
     files = compile_all(outdir, opts)
     calls, sites, others, per_tu = [], [], {}, {}
-    mk = None
+    mk = carve = None
     sources = {}
     for (tu, opt), (spath, ipath) in sorted(files.items(), key=lambda kv: (opts.index(kv[0][1]), vlib.COMMON_SRCS.index(kv[0][0]))):
         stext = open(spath, errors="replace").read()
@@ -404,11 +404,13 @@ def translate(outdir, opts):
             e_ops, e_st = parse_mk(function_body(itext, "myth_make_context_empty"))
             v_ops, v_st = parse_mk(function_body(itext, "myth_make_context_voidcall"))
             mk = {"empty": e_ops, "voidcall": v_ops, "empty_src": e_st, "voidcall_src": v_st}
+            carve = extract_carve(itext)
         # which source files produced asm statements / make_context
     for p in sorted(set([s["file"] for s in sites] + [os.path.join(vlib.REPO, "src", x) for x in
                                                          ("myth_context_func.h", "myth_context.h", "myth_config.h")])):
         sources[p] = vlib.file_sha(p)
-    return {"sites": sites, "others": others, "mk": mk, "calls": calls, "per_tu": per_tu, "sources": sources}
+    sources[os.path.join(vlib.REPO, "src", "myth_sched_func.h")] = vlib.file_sha(os.path.join(vlib.REPO, "src", "myth_sched_func.h"))
+    return {"sites": sites, "others": others, "mk": mk, "carve": carve, "calls": calls, "per_tu": per_tu, "sources": sources}
 
 
 def coq_site(k, st):
@@ -436,6 +438,9 @@ def coq_data(tr, header, with_proofs=True, module_imports="Ctx.X86Model Ctx.CtxC
     o.append("Definition sites : list site :=\n  [" + "; ".join("site_%d" % k for k in range(len(tr["sites"]))) + "].\n")
     o.append("Definition mk_empty_ops : list mkop := [" + "; ".join(tr["mk"]["empty"]) + "].")
     o.append("Definition mk_voidcall_ops : list mkop := [" + "; ".join(tr["mk"]["voidcall"]) + "].\n")
+    o.append("(* custom-data carve-out of myth_create_ex_body, case custom_data_size > 0:\n" +
+             "\n".join("     " + n.replace("*)", "* )") for n in tr["carve"]["notes"] + ["NOT UNDERSTOOD: " + u for u in tr["carve"]["unknown"]]) + " *)")
+    o.append(coq_carve(tr["carve"]))
     return "\n".join(o) + "\n"
 
 
@@ -446,6 +451,7 @@ def digest(tr):
         h.update(("%s|%s|%s|%d|%s|%s\n" % (st["tu"], st["opt"], st["file"], st["line"], ";".join(st["coq"]),
                                          (st["decl"] or {}).get("clobbers_text"))).encode())
     h.update(repr(tr["mk"]).encode())
+    h.update(repr([tr["carve"][k] for k in ("empty", "voidcall", "ptr", "copy_dst", "copy_len", "ok")]).encode())
     return h.hexdigest()
 
 
@@ -460,6 +466,426 @@ def distinct_sites(tr):
             seen.add(key)
             out.append(st)
     return out
+
+
+# ---------------------------------------------------------------------------------------------
+# custom-data carve-out of myth_create_ex_body (src/myth_sched_func.h)
+#
+# Abstract interpretation of the preprocessed function body for the case custom_data_size > 0.
+# Values are linear forms   s*stk + c + r*round16(size) + l*size   (stk = what the stack allocator
+# returned, size = custom_data_size).  Tracked: every variable whose value derives from stk.  Calls to
+# functions defined in the same translation unit whose body mentions custom_data_ptr are inlined with C's
+# by-value parameter passing.  Anything that could change a tracked variable and is not understood
+# makes the result `unknown` (the Coq checker then rejects).
+# ---------------------------------------------------------------------------------------------
+
+CAST = re.compile(r"\(\s*(?:const\s+|unsigned\s+|struct\s+)*(?:void|char|long|int|intptr_t|uintptr_t|size_t|uint64_t|int64_t)\s*\**\s*\)")
+
+
+class Lin:
+    def __init__(self, s=0, c=0, r=0, l=0):
+        self.s, self.c, self.r, self.l = s, c, r, l
+
+    def __add__(self, o):
+        return Lin(self.s + o.s, self.c + o.c, self.r + o.r, self.l + o.l)
+
+    def __sub__(self, o):
+        return Lin(self.s - o.s, self.c - o.c, self.r - o.r, self.l - o.l)
+
+    def const(self):
+        return self.c if (self.s, self.r, self.l) == (0, 0, 0) else None
+
+    def tup(self):
+        return (self.s, self.c, self.r, self.l)
+
+    def coq(self):
+        return "mkLin %s %s %s %s" % tuple(zlit(x) for x in self.tup())
+
+    def __repr__(self):
+        return "%d*stk%+d%+d*round16(size)%+d*size" % self.tup()
+
+
+class Unknown(Exception):
+    pass
+
+
+def tokenize(e):
+    toks = re.findall(r"0[xX][0-9a-fA-F]+[uUlL]*|\d+[uUlL]*|[A-Za-z_]\w*(?:\s*->\s*\w+)*|<<|>>|[-+&~()*]", e)
+    if "".join(toks).replace(" ", "") != re.sub(r"\s+", "", e).replace(" ", ""):
+        raise Unknown("cannot tokenize: " + e)
+    return toks
+
+
+class ExprParser:
+    """+ - << >> & ~ over linear forms; recognises round16 as ((x+15)>>4)<<4 and (x+15)&~15"""
+
+    def __init__(self, toks, env):
+        self.t, self.i, self.env = toks, 0, env
+
+    def peek(self):
+        return self.t[self.i] if self.i < len(self.t) else None
+
+    def eat(self, x=None):
+        tok = self.peek()
+        if x is not None and tok != x:
+            raise Unknown("expected %s got %s" % (x, tok))
+        self.i += 1
+        return tok
+
+    def parse(self):
+        v = self.p_and()
+        if self.peek() is not None:
+            raise Unknown("trailing tokens")
+        return v
+
+    def p_and(self):
+        v = self.p_shift()
+        while self.peek() == "&":
+            self.eat()
+            w = self.p_shift()
+            v = self.do_and(v, w)
+        return v
+
+    def do_and(self, v, w):
+        if isinstance(v, Lin) and isinstance(w, Lin) and w.const() is not None and w.const() in (-16, 2 ** 64 - 16):
+            if v.tup() == (0, 15, 0, 1):
+                return Lin(0, 0, 1, 0)
+        raise Unknown("& not understood")
+
+    def p_shift(self):
+        v = self.p_add()
+        while self.peek() in ("<<", ">>"):
+            op = self.eat()
+            w = self.p_add()
+            if not (isinstance(w, Lin) and w.const() == 4):
+                raise Unknown("shift amount")
+            if op == ">>" and isinstance(v, Lin) and v.tup() == (0, 15, 0, 1):
+                v = ("shr4",)
+            elif op == "<<" and v == ("shr4",):
+                v = Lin(0, 0, 1, 0)
+            else:
+                raise Unknown("shift not understood")
+        return v
+
+    def p_add(self):
+        v = self.p_unary()
+        while self.peek() in ("+", "-"):
+            op = self.eat()
+            w = self.p_unary()
+            if not (isinstance(v, Lin) and isinstance(w, Lin)):
+                raise Unknown("arith on non-linear")
+            v = v + w if op == "+" else v - w
+        return v
+
+    def p_unary(self):
+        tok = self.peek()
+        if tok == "-":
+            self.eat()
+            v = self.p_unary()
+            if not isinstance(v, Lin):
+                raise Unknown("neg")
+            return Lin() - v
+        if tok == "~":
+            self.eat()
+            v = self.p_unary()
+            if isinstance(v, Lin) and v.const() is not None:
+                return Lin(0, -v.const() - 1)
+            raise Unknown("~")
+        if tok == "(":
+            self.eat()
+            v = self.p_and()
+            self.eat(")")
+            return v
+        if tok is None:
+            raise Unknown("unexpected end")
+        self.eat()
+        if re.match(r"^(0[xX][0-9a-fA-F]+|\d+)", tok):
+            return Lin(0, num(re.sub(r"[uUlL]+$", "", tok)))
+        name = re.sub(r"\s+", "", tok)
+        if name in self.env:
+            return self.env[name]
+        raise Unknown("unknown identifier " + name)
+
+
+def eval_expr(e, env):
+    e = CAST.sub(" ", e)
+    return ExprParser(tokenize(e.strip()), env).parse()
+
+
+def split_statements(body):
+    """top-level items of a block: ('if', cond, then, else) | ('block', text) | ('stmt', text)"""
+    items, i, n = [], 0, len(body)
+    while i < n:
+        if body[i] in " \t\r\n;":
+            i += 1
+            continue
+        m = re.match(r"if\s*\(", body[i:])
+        if m:
+            j = balanced(body, i + m.end() - 1)
+            cond = body[i + m.end():j - 1]
+            then, k = take_substatement(body, j)
+            els = None
+            m2 = re.match(r"\s*else\b", body[k:])
+            if m2:
+                els, k = take_substatement(body, k + m2.end())
+            items.append(("if", cond.strip(), then, els))
+            i = k
+            continue
+        if body[i] == "{":
+            j = match_brace(body, i)
+            items.append(("block", body[i + 1:j]))
+            i = j + 1
+            continue
+        m = re.match(r"do\s*\{", body[i:])
+        if m:
+            j = match_brace(body, i + m.end() - 1)
+            k = body.index(";", j)
+            items.append(("stmt", body[i:k]))
+            i = k + 1
+            continue
+        # plain statement up to the next top-level ';'
+        depth, k = 0, i
+        while k < n:
+            ch = body[k]
+            if ch == '"':
+                k += 1
+                while k < n and body[k] != '"':
+                    k += 2 if body[k] == "\\" else 1
+            elif ch in "([{":
+                depth += 1
+            elif ch in ")]}":
+                depth -= 1
+            elif ch == ";" and depth == 0:
+                break
+            k += 1
+        items.append(("stmt", body[i:k]))
+        i = k + 1
+    return items
+
+
+def match_brace(text, i):
+    depth = 0
+    while i < len(text):
+        if text[i] == '"':
+            i += 1
+            while i < len(text) and text[i] != '"':
+                i += 2 if text[i] == "\\" else 1
+        elif text[i] == "{":
+            depth += 1
+        elif text[i] == "}":
+            depth -= 1
+            if depth == 0:
+                return i
+        i += 1
+    return len(text) - 1
+
+
+def take_substatement(body, i):
+    while i < len(body) and body[i] in " \t\r\n":
+        i += 1
+    if i < len(body) and body[i] == "{":
+        j = match_brace(body, i)
+        return body[i + 1:j], j + 1
+    items = split_statements_one(body, i)
+    return items
+
+
+def split_statements_one(body, i):
+    depth, k = 0, i
+    while k < len(body):
+        ch = body[k]
+        if ch in "([{":
+            depth += 1
+        elif ch in ")]}":
+            depth -= 1
+        elif ch == ";" and depth == 0:
+            break
+        k += 1
+    return body[i:k + 1], k + 1
+
+
+def function_def(itext, name):
+    """(parameter names, body) of a function defined in the preprocessed text"""
+    for m in re.finditer(r"\b" + re.escape(name) + r"\s*\(", itext):
+        end = balanced(itext, m.end() - 1)
+        j = end
+        while j < len(itext) and itext[j] in " \t\r\n":
+            j += 1
+        if j < len(itext) and itext[j] == "{":
+            params = [re.findall(r"[A-Za-z_]\w*", p)[-1] for p in split_top(itext[m.end():end - 1], ",") if re.findall(r"[A-Za-z_]\w*", p)]
+            k = match_brace(itext, j)
+            return params, re.sub(r"^#.*$", "", itext[j + 1:k], flags=re.M)
+    return None
+
+
+class Carve:
+    def __init__(self, itext):
+        self.itext = itext
+        self.notes, self.unknown = [], []
+        self.sinks = {}          # 'empty' / 'voidcall' -> Lin
+        self.ptr = None          # value assigned to ->custom_data_ptr
+        self.copy = None         # (dst, len) of the memcpy of the hint
+        self.stack_field = None
+        self.depth = 0
+
+    def tracked(self, env):
+        return [k for k in env if k not in ("custom_data_size",)]
+
+    def mentions(self, text, env):
+        return [v for v in self.tracked(env) if re.search(r"(?<![\w>.])" + re.escape(v) + r"\b", text)]
+
+    def run_block(self, body, env):
+        for it in split_statements(body):
+            if it[0] == "block":
+                self.run_block(it[1], env)
+            elif it[0] == "if":
+                cond = re.sub(r"\s+", " ", it[1])
+                if re.match(r"^custom_data_size ?> ?0$", cond) or re.match(r"^custom_data_size$", cond):
+                    self.run_block(it[2], env)          # the case analysed: custom_data_size > 0
+                elif re.match(r"^child_first$", cond):
+                    self.run_block(it[2], env)
+                    if it[3] is not None:
+                        self.run_block(it[3], env)      # both branches only read the tracked variables (checked below)
+                else:
+                    whole = it[2] + (it[3] or "")
+                    if self.modifies(whole, env) or "make_context" in whole or "custom_data_ptr" in whole:
+                        self.unknown.append("conditional not understood: if (%s)" % cond)
+            else:
+                self.run_stmt(re.sub(r"\s+", " ", it[1]).strip(), env)
+
+    def modifies(self, text, env):
+        for v in self.mentions(text, env):
+            if re.search(r"&\s*" + re.escape(v) + r"\b", text) or \
+               re.search(r"(?<![\w>.])" + re.escape(v) + r"\s*(?:[-+&|^*/]|<<|>>)?=(?!=)", text) or \
+               re.search(r"(\+\+|--)\s*" + re.escape(v) + r"\b|\b" + re.escape(v) + r"\s*(\+\+|--)", text):
+                return True
+        return False
+
+    def run_stmt(self, s, env):
+        if not s:
+            return
+        # declaration with initialiser / assignment of a tracked variable
+        m = re.match(r"^(?:(?:const |unsigned |struct )*(?:void|char|intptr_t|uintptr_t|size_t|uint64_t|long|int) ?\*? ?)?([A-Za-z_]\w*) ?(=|-=|\+=) ?(.+)$", s)
+        if m and not re.match(r"^(return|if|while|for)\b", s):
+            var, op, rhs = m.groups()
+            is_src = re.match(r"^get_new_myth_thread_struct_stack ?\(", rhs) is not None
+            if is_src:
+                env[var] = Lin(1, 0, 0, 0)
+                self.notes.append("%s := stack top from the allocator" % var)
+                return
+            touches = self.mentions(rhs, env) or var in env
+            if not touches:
+                return
+            if var == "custom_data_size":
+                if not re.search(r"attr ?-> ?custom_data_size", rhs):
+                    self.unknown.append("custom_data_size reassigned: " + s)
+                return
+            try:
+                val = eval_expr(rhs, env)
+                if not isinstance(val, Lin):
+                    raise Unknown("non-linear value")
+                if op == "=":
+                    env[var] = val
+                elif var in env:
+                    env[var] = env[var] - val if op == "-=" else env[var] + val
+                else:
+                    raise Unknown("compound assignment to untracked variable")
+                self.notes.append("%s %s %s   => %s = %r" % (var, op, rhs, var, env[var]))
+            except Unknown as e:
+                self.unknown.append("%s  (%s)" % (s, e))
+                env.pop(var, None)
+            return
+        # field assignment  x->f = e
+        m = re.match(r"^([A-Za-z_]\w*) ?-> ?(\w+) ?= ?(.+)$", s)
+        if m:
+            obj, fld, rhs = m.groups()
+            if fld == "custom_data_ptr":
+                try:
+                    self.ptr = eval_expr(rhs, env)
+                    self.notes.append("->custom_data_ptr = %s   => %r" % (rhs, self.ptr))
+                except Unknown as e:
+                    self.unknown.append("%s  (%s)" % (s, e))
+            elif self.mentions(rhs, env) and fld == "stack":
+                self.stack_field = rhs
+            elif self.modifies(rhs, env):
+                self.unknown.append(s)
+            return
+        # calls
+        m = re.match(r"^([A-Za-z_]\w*) ?\((.*)\)$", s)
+        if m:
+            f, args = m.group(1), split_top(m.group(2), ",")
+            if f == "memcpy" and len(args) == 3 and (self.mentions(args[0], env) or "custom_data" in args[1]):
+                try:
+                    self.copy = (eval_expr(args[0], env), eval_expr(args[2], env))
+                    self.notes.append("memcpy(%s, .., %s)" % (args[0].strip(), args[2].strip()))
+                except Unknown as e:
+                    self.unknown.append("%s  (%s)" % (s, e))
+                return
+            if f in ("myth_make_context_empty", "myth_make_context_voidcall"):
+                a = args[1] if f.endswith("empty") else args[2]
+                try:
+                    self.sinks[f[len("myth_make_context_"):]] = eval_expr(a, env)
+                    self.notes.append("%s(.., %s, ..)   => stack top %r" % (f, a.strip(), self.sinks[f[len("myth_make_context_"):]]))
+                except Unknown as e:
+                    self.unknown.append("%s  (%s)" % (s, e))
+                return
+            if self.modifies(s, env):
+                self.unknown.append("address of a tracked variable escapes: " + s)
+                return
+            d = function_def(self.itext, f)
+            if d and ("custom_data_ptr" in d[1] or "make_context" in d[1]) and self.depth < 3:
+                params, body = d
+                if len(params) != len(args):
+                    self.unknown.append("call with unexpected arity: " + s)
+                    return
+                cenv = {}
+                for p, a in zip(params, args):
+                    a = a.strip()
+                    if re.sub(r"\s+", "", CAST.sub("", a)) == "custom_data_size":
+                        if p != "custom_data_size":
+                            body = re.sub(r"\b" + re.escape(p) + r"\b", "custom_data_size", body)
+                        continue
+                    if self.mentions(a, env):
+                        try:
+                            cenv[p] = eval_expr(a, env)      # passed BY VALUE: the callee works on a copy
+                        except Unknown as e:
+                            self.unknown.append("%s  (%s)" % (s, e))
+                cenv["custom_data_size"] = env["custom_data_size"]
+                self.notes.append("inlining %s(%s) with by-value parameters %s" % (f, ", ".join(x.strip() for x in args), sorted(cenv)))
+                self.depth += 1
+                self.run_block(body, cenv)
+                self.depth -= 1
+            return
+        if self.modifies(s, env):
+            self.unknown.append("statement not understood: " + s[:120])
+
+
+def extract_carve(itext):
+    body = function_body(itext, "myth_create_ex_body")
+    if body is None:
+        return {"ok": False, "unknown": ["myth_create_ex_body not found"], "notes": [], "empty": None, "voidcall": None,
+                "ptr": None, "copy_dst": None, "copy_len": None}
+    body = re.sub(r"^#.*$", "", body, flags=re.M)
+    c = Carve(itext)
+    env = {"custom_data_size": Lin(0, 0, 0, 1)}
+    c.run_block(body, env)
+    for k in ("empty", "voidcall"):
+        if not isinstance(c.sinks.get(k), Lin):
+            c.unknown.append("no call of myth_make_context_%s with an understood stack top" % k)
+    if not isinstance(c.ptr, Lin):
+        c.unknown.append("no understood assignment to ->custom_data_ptr")
+    if c.copy is None or not all(isinstance(x, Lin) for x in c.copy):
+        c.unknown.append("no understood memcpy of the hint")
+    g = lambda v: v if isinstance(v, Lin) else None
+    return {"ok": not c.unknown, "unknown": c.unknown, "notes": c.notes, "empty": g(c.sinks.get("empty")),
+            "voidcall": g(c.sinks.get("voidcall")), "ptr": g(c.ptr),
+            "copy_dst": g(c.copy[0]) if c.copy else None, "copy_len": g(c.copy[1]) if c.copy else None}
+
+
+def coq_carve(cv):
+    o = lambda v: "(Some (%s))" % v.coq() if v is not None else "None"
+    return ("Definition cd_layout : carve :=\n  mkCarve %s %s %s %s %s %s.\n"
+            % (o(cv["empty"]), o(cv["voidcall"]), o(cv["ptr"]), o(cv["copy_dst"]), o(cv["copy_len"]), "true" if cv["ok"] else "false"))
 
 
 if __name__ == "__main__":
